@@ -37,6 +37,19 @@ pub fn scratch_root() -> PathBuf {
         std::env::temp_dir()
     };
     let p = base.join(format!("cvh-{}", std::process::id()));
+    if !p.exists() {
+        // first use in this process: sweep scratch roots left behind by workers that were killed
+        if let Ok(rd) = std::fs::read_dir(&base) {
+            for e in rd.flatten() {
+                let name = e.file_name().to_string_lossy().into_owned();
+                if let Some(pid) = name.strip_prefix("cvh-").and_then(|x| x.parse::<u32>().ok()) {
+                    if !Path::new(&format!("/proc/{pid}")).exists() {
+                        let _ = std::fs::remove_dir_all(e.path());
+                    }
+                }
+            }
+        }
+    }
     std::fs::create_dir_all(&p).expect("create scratch root");
     p
 }
